@@ -174,6 +174,8 @@ class C17(Check):
                 where = f"step {k} target {tid} {r['cls']}(threshold={r['threshold']}, window={r['window']}, delta={r['delta']}) history (NIS, dim)={[(round(n, 4), d) for n, d in ref.hist[-6:]]}"
                 # the quadratic form inverts S: allow the rounding its conditioning amplifies
                 rtol = max(1e-9, 100 * 2.3e-16 * float(np.linalg.cond(r["innov_cvr"]))) * max(1, len(ref.hist) if r["cls"] != "StandardNis" else 1)
+                if r["flag"]:
+                    flags[(k, tid)] = True       # what the detector said, judged or not: the stored rows must mirror it
                 if rtol > 1e-4:
                     res["indeterminate"] += 1
                     continue
